@@ -431,6 +431,11 @@ def _sim():
 
 def run_script(c, script):
     """Execute (c, script) with the real Actuator.run; return (events, error text or None)."""
+    if script.get("real"):           # leg "markets": the real markets of every type (harness/c05_real.py)
+        import tempfile
+        from .. import c05_real
+        with tempfile.TemporaryDirectory(prefix="verif_c05r_") as td:
+            return c05_real.run_case(script["real"], td)
     S = _sim()
     act, rec = S["build"](c, script)
     try:
@@ -758,6 +763,12 @@ def _run(chk: Check) -> int:
         if any(m["h"] for m in c["mk"]) and not any(t % 60 == 0 for t in range(s, s + ln)):
             c["mk"] = [m for m in c["mk"] if not m["h"]]
         cases.append(("realistic", c, random_script(c, rnd, rnd.choice((0.3, 0.6)), emit=False), None))
+    # 4c. the real markets of every type (Uniswap, Aave, Squeeth + pool, Deribit, GMX v1, GMX v2) on 1-minute and resampled grids
+    from .. import c05_real
+    real_cases = c05_real.cases(rnd, quick)
+    for rc in real_cases:
+        c = c05_real.config(rc["kind"], rc["F"], len(rc["hist"]))
+        cases.append(("markets", c, {"real": rc, "ops": {"real": [[rc["kind"], rc["script"]]]}, "fire": [], "out": [], "emit": {}}, None))
     # 5. execute every case with the real Actuator.run
     runs = run_many([(c, s) for _, c, s, _ in cases])
     traces = [(tid, cases[tid][1], runs[tid][0]) for tid in range(len(cases))]
@@ -781,7 +792,8 @@ def _run(chk: Check) -> int:
                         "first_events": [[e["e"], e["m"], e["ts"]] for e in events[:14]], "verdict": verdicts[tid]["verdict"]})
     chk.extra["distinct_nontrivial"] = len(nontrivial)
     chk.extra["cases"] = {"enumerated_exhaustive": n_exh, "simulated_by_tlc": n_sim, "random_scripts": n_rand,
-                          "realistic_mix_with_UniLpMarket": n_real}
+                          "realistic_mix_with_UniLpMarket": n_real,
+                          "real_markets_of_every_type": len(real_cases)}
     chk.extra["events_validated"] = nevents
     # 6. the binding is demonstrated: a corrupted field and a deleted event must be rejected
     binding_selfcheck(chk, cases, runs, rnd, verdicts)
